@@ -50,7 +50,7 @@ type callScript struct {
 	responses    [][]byte
 	code         codes.Code
 	msg          string
-	interleaved  bool // respond while still receiving
+	interleaved  bool          // respond while still receiving
 	delay        time.Duration // time the backend takes before it answers (C18)
 	hang         bool          // never answer: wait until the stream is torn down (C18)
 }
